@@ -183,6 +183,25 @@ var ifaceMutators = map[string]map[string]bool{
 	"StateMachine":    {"Apply": true, "Snapshot": true, "Restore": true},
 }
 
+// ifaceNeutral lists the methods that are known NOT to change what the interface's observers return (reason per
+// interface). A method that is in none of the three tables — e.g. one added to the interface later — is treated as a
+// mutator: the sound default.
+var ifaceNeutral = map[string]map[string]bool{
+	// Metadata() is fixed when the file is created or opened
+	"SnapshotFile": {"Write": true, "Read": true, "Seek": true, "Close": true, "Discard": true},
+	// the observers are the node's own address and the two pure codecs
+	"Transport": {"Run": true, "Shutdown": true, "SendAppendEntries": true, "SendRequestVote": true, "SendInstallSnapshot": true,
+		"RegisterAppendEntriesHandler": true, "RegisterRequestVoteHandler": true, "RegsiterInstallSnapshotHandler": true},
+}
+
+// ifaceMayMutate: a call of method m on module interface iface may change what the interface's observers return.
+func ifaceMayMutate(iface, m string) bool {
+	if ifaceMutators[iface][m] {
+		return true
+	}
+	return !ifaceObservers[iface][m] && !ifaceNeutral[iface][m]
+}
+
 // ifaceOf returns the module interface name a method call is made on ("" if none).
 func ifaceOf(c *ssa.CallCommon) string {
 	if !c.IsInvoke() {
@@ -209,6 +228,156 @@ func (p *Program) Canon(f *Frame, v ssa.Value) *Term {
 	t := p.canon1(f, v, 0)
 	f.cache[v] = t
 	return t
+}
+
+// isReferenceType: values of these types denote objects, not contents; a rule that follows such a value across
+// a write follows the object (field-based memory model), which is what it means to.
+func isReferenceType(t types.Type) bool {
+	switch t.Underlying().(type) {
+	case *types.Pointer, *types.Map, *types.Slice, *types.Chan, *types.Interface, *types.Signature:
+		return true
+	}
+	if tp, ok := t.(*types.Tuple); ok {
+		for i := 0; i < tp.Len(); i++ {
+			if !isReferenceType(tp.At(i).Type()) {
+				return false
+			}
+		}
+		return tp.Len() > 0
+	}
+	return false
+}
+
+// settle names the result t of a memory read v (a load, a map lookup, an observer or pure call): the name of the
+// location ("r.currentTerm") is a statement about the CURRENT contents of that location, so the value may carry it
+// only if at every place where the value is consumed the location still holds it. Otherwise the value is named as a
+// captured value ("@r.currentTerm"): it keeps its identity, matches no atom about current memory, and rules that
+// compare stored or passed values by name see that it is not the current contents.
+func (p *Program) settle(f *Frame, v ssa.Value, t *Term) *Term {
+	if t == nil || t.Opaque || !t.readsMemory() || isReferenceType(v.Type()) {
+		return t
+	}
+	r, ok := v.(ssa.Instruction)
+	if !ok || r.Block() == nil {
+		return t
+	}
+	if p.stableAtUses(r, v, t) {
+		return t
+	}
+	return capturedCopy(t)
+}
+
+// loadsOf returns the loads from a local allocation and from the addresses of its fields and elements.
+func loadsOf(al *ssa.Alloc) []ssa.Value {
+	var out []ssa.Value
+	var visit func(addr ssa.Value, depth int)
+	visit = func(addr ssa.Value, depth int) {
+		refs := addr.Referrers()
+		if refs == nil || depth > 4 {
+			return
+		}
+		for _, r := range *refs {
+			switch y := r.(type) {
+			case *ssa.UnOp:
+				if y.Op == token.MUL && y.X == addr {
+					out = append(out, y)
+				}
+			case *ssa.FieldAddr:
+				if y.X == addr {
+					visit(y, depth+1)
+				}
+			case *ssa.IndexAddr:
+				if y.X == addr {
+					visit(y, depth+1)
+				}
+			}
+		}
+	}
+	visit(al, 0)
+	return out
+}
+
+// stableAtUses: on every path from the read r to every instruction that consumes the value v (directly or through
+// pure operators), nothing may write what the read depends on (dep). r == nil: from the entry of v's function.
+func (p *Program) stableAtUses(r ssa.Instruction, v ssa.Value, dep *Term) bool {
+	a := &Analysis{P: p}
+	seen := map[ssa.Value]bool{v: true}
+	work := []ssa.Value{v}
+	for len(work) > 0 {
+		x := work[0]
+		work = work[1:]
+		refs := x.Referrers()
+		if refs == nil {
+			continue
+		}
+		for _, u := range *refs {
+			switch y := u.(type) {
+			case *ssa.DebugRef:
+				continue
+			case *ssa.BinOp, *ssa.Convert, *ssa.ChangeType, *ssa.MakeInterface, *ssa.ChangeInterface, *ssa.Field, *ssa.Extract, *ssa.Slice:
+				if val := u.(ssa.Value); !seen[val] {
+					seen[val] = true
+					work = append(work, val)
+				}
+				continue
+			case *ssa.UnOp:
+				if y.Op != token.MUL {
+					if !seen[y] {
+						seen[y] = true
+						work = append(work, y)
+					}
+					continue
+				}
+			case *ssa.Store:
+				// spilled into a local variable (or a field of a local struct): the loads from it carry the value on
+				// (only where Canon names those loads after the stored value: a local struct assigned exactly once
+				// as a whole; a field of a message under construction is a consumer like any other, and later loads
+				// of that field are named after the message, not after the value)
+				if y.Val == x {
+					if al, ok := y.Addr.(*ssa.Alloc); ok && !al.Heap && singleStore(al) != nil && onlyFieldReads(al) {
+						for _, ld := range loadsOf(al) {
+							if !seen[ld] {
+								seen[ld] = true
+								work = append(work, ld)
+							}
+						}
+					}
+				}
+			case *ssa.Defer:
+				// evaluated here, consumed when the deferred call runs
+				for _, b := range y.Parent().Blocks {
+					for _, in := range b.Instrs {
+						if rd, ok := in.(*ssa.RunDefers); ok && !a.unchangedBetween(r, rd, nil, dep) {
+							return false
+						}
+					}
+				}
+				continue
+			case *ssa.Phi:
+				// consumed at the end of the predecessor it arrives from
+				for i, e := range y.Edges {
+					if e != x || i >= len(y.Block().Preds) {
+						continue
+					}
+					pb := y.Block().Preds[i]
+					if len(pb.Instrs) == 0 {
+						continue
+					}
+					if !a.unchangedBetween(r, pb.Instrs[len(pb.Instrs)-1], nil, dep) {
+						return false
+					}
+				}
+				continue
+			}
+			if u == r {
+				continue
+			}
+			if !a.unchangedBetween(r, u, nil, dep) {
+				return false
+			}
+		}
+	}
+	return true
 }
 
 func (p *Program) opaque(f *Frame, v ssa.Value) *Term {
@@ -317,11 +486,11 @@ func (p *Program) canon1(f *Frame, v ssa.Value, depth int) *Term {
 			if strings.HasPrefix(a.S, "&") {
 				t := derive(a.S[1:], a)
 				t.Shared = a.Shared || p.addrShared(f, v.X)
-				return t
+				return p.settle(f, v, t)
 			}
 			t := derive("*"+a.S, a)
 			t.Shared = a.Shared || p.addrShared(f, v.X)
-			return t
+			return p.settle(f, v, t)
 		case token.NOT:
 			a := rec(v.X)
 			return derive("!"+a.S, a)
@@ -347,7 +516,7 @@ func (p *Program) canon1(f *Frame, v ssa.Value, depth int) *Term {
 		idx := rec(v.Index)
 		t := derive(base.S+"["+idx.S+"]", base, idx)
 		t.HasMap = true
-		return t
+		return p.settle(f, v, t)
 	case *ssa.Index:
 		base := rec(v.X)
 		idx := rec(v.Index)
@@ -401,7 +570,7 @@ func (p *Program) canon1(f *Frame, v ssa.Value, depth int) *Term {
 	case *ssa.Phi:
 		return p.opaque(f, v)
 	case *ssa.Call:
-		return p.canonCall(f, v, rec)
+		return p.settle(f, v, p.canonCall(f, v, rec))
 	}
 	return p.opaque(f, v)
 }
